@@ -34,6 +34,7 @@ var gvcAPIScenarios = []gvcAPIScenario{
 	{"plus-line-before-minus-line-single-elision", "@@\n@@\n+bar(...)\n-foo(...)\n", "package a\n\nfunc g() { foo(1, 2) }\n", true},
 	{"elision-needs-backtracking", "@@\n@@\n-foo(..., 1)\n+bar(..., 1)\n", "package a\n\nfunc g() { foo(1, 2, 1) }\n", true},
 	{"same-path-imported-twice", "@@\n@@\n import \"x/y\"\n\n-y.Foo()\n+y.Bar()\n", "package a\n\nimport (\n\ta \"x/y\"\n\t\"x/y\"\n)\n\nfunc g() { y.Foo(); a.Foo() }\n", true},
+	{"added-import-and-top-level-decl", "@@\n@@\n+import \"fmt\"\n\n-func hello() {\n-  println(\"hi\")\n-}\n+func hello() {\n+  fmt.Println(\"hi\")\n+}\n", "package a\n\nvar before = 1\n\nfunc hello() {\n\tprintln(\"hi\")\n}\n\nfunc other() {}\n", true},
 	{"elision-both-sides", "@@\n@@\n func f() {\n   ...\n-  foo()\n+  bar()\n+  baz()\n   ...\n }\n", "package a\n\nfunc f() {\n\ta()\n\tfoo()\n\tb()\n\tc()\n}\n", true},
 }
 
@@ -104,6 +105,10 @@ func TestGvcReplay(t *testing.T) {
 		}
 		if in.Property == "C10" && strings.Contains(in.Obligation, "any-unnamed-import") && sc.name == "same-path-imported-twice" && r.err == nil && !bytes.Contains(r.out, []byte("y.Bar()")) {
 			report(sc, fmt.Sprintf("the file imports the path in the stated (unnamed) form but the change was not applied: Apply returned %q", r.out))
+		}
+		if strings.Contains(in.Obligation, "the-slot-written-is-the-slot-that-matched") && sc.name == "added-import-and-top-level-decl" && r.err == nil &&
+			(!bytes.Contains(r.out, []byte("var before = 1")) || bytes.Contains(r.out, []byte("println(\"hi\")")) || bytes.Count(r.out, []byte("func hello()")) != 1) {
+			report(sc, fmt.Sprintf("the change adds an import and rewrites func hello; the rewritten declaration was written over another declaration: Apply returned %q", r.out))
 		}
 		switch in.Property {
 		case "C09", "C16":
